@@ -100,11 +100,25 @@ def gen_case(rng, params, index):
     for n, c in comps.items():
         c["imports"] = list(dimports[c["dir"]])
 
+    # two directories that each have a sub-directory of the same name, imported by the same string: the string means a
+    # different directory depending on who says it, and both hold a component of the same name with different bases
+    twins = None
+    if ndirs >= 2 and rng.chance(0.4):
+        dA, dB = rng.sample(dirs, 2)
+        subname = rng.choice(["common", "parts", "lib"])
+        bA, bB = rng.sample(sorted(QT_BASES), 2)
+        twins = {"bases": {dA: bA, dB: bB}, "sub": subname, "spell": rng.choice([subname, "./" + subname])}
     files = {}
+    if twins:
+        for dX, bX in sorted(twins["bases"].items()):
+            files["proj/%s/%s/Base0.qml" % (dX, twins["sub"])] = "import qmluic.QtWidgets\n%s {\n}\n" % bX
+            files["proj/%s/%s/Only%s.qml" % (dX, twins["sub"], bX)] = "import qmluic.QtWidgets\n%s {\n}\n" % bX
     for n, c in sorted(comps.items()):
         L = ["import qmluic.QtWidgets"]
         imps = list(c["imports"])
         rng.shuffle(imps)
+        if twins and c["dir"] in twins["bases"]:
+            L.append('import "%s"' % twins["spell"])
         for e in imps:
             L.append('import "%s"' % relpath_spelling(rng, c["dir"], e))
         base = qt_base(comps, n)
@@ -182,8 +196,14 @@ def gen_case(rng, params, index):
         L = ["import qmluic.QtWidgets"]
         imps = list(dimports[d])
         rng.shuffle(imps)
+        in_twin = bool(twins) and d in twins["bases"]
+        if in_twin and rng.chance(0.5):
+            L.append('import "%s"' % twins["spell"])
+            in_twin = "first"
         for e in imps:
             L.append('import "%s"' % relpath_spelling(rng, d, e))
+        if in_twin is True:
+            L.append('import "%s"' % twins["spell"])
         used = []
         props = []
         rootcands = [c for c in vis if qt_base(comps, c) in ("QWidget", "QDialog", "QGroupBox", "QFrame")]
@@ -214,6 +234,15 @@ def gen_case(rng, params, index):
                 L.append("        " + line)
         seen = [x for x in dups if x["dir"] == d or x["dir"] in dimports[d]]
         extra, ambiguous = [], []
+        if in_twin and rng.chance(0.8):
+            bX = twins["bases"][d]
+            p_, v_ = QT_BASES[bX]
+            L.append("        Base0 { id: tb0; %s: %s }" % (p_, v_))
+            extra.append(["Base0", bX])
+            props.append(["Base0", "tb0", p_])
+            if rng.chance(0.5):
+                L.append("        Only%s { id: tb1 }" % bX)
+                extra.append(["Only%s" % bX, bX])
         if seen and rng.chance(0.7):
             L.append("        Dup { id: dup0 }")
             if len(seen) == 1:
